@@ -20,7 +20,7 @@ var (
 		"*.x.com", "*.b.x.com", "*.*.x.com", "*x.com", "a.*.com", "*.com", "*", "*.y.org", "a*.x.com",
 		"a.x.com:8080", "*.x.com:8080", "x.com:8080", "",
 		// written with the scheme's default port; wildcards by '?', class and alternatives; a pattern that is not well formed
-		"a.x.com:80", "x.com:443", "b.x.com:80", "*.x.com:80", "?.x.com", "[ab].x.com", "{a,b}.x.com", "a.x.co?", "{x,ax}.com", "a.[w-y].com", "x.com{", "a.x.com{", "*.x.com{"}
+		"a.x.com:80", "x.com:443", "b.x.com:80", "*.x.com:80", "*:80", "*:443", "*:8080", "a*:80", "?.x.com", "[ab].x.com", "{a,b}.x.com", "a.x.co?", "{x,ax}.com", "a.[w-y].com", "x.com{", "a.x.com{", "*.x.com{"}
 	c03ReqHosts = []string{"a.x.com", "b.x.com", "a.b.x.com", "c.a.b.x.com", "x.com", "ax.com", "www.y.org", "y.org", "z.y.org", "q.net", "a.q.com", "",
 		"a.com", "a..com", "com"} // a.com: too short for 'a.*.com' (prefix and suffix would have to overlap)
 	c03Ports = []string{"", "", ":80", ":443", ":8080", ":9"}
